@@ -296,19 +296,10 @@ def step_reported(ctx, fu):
     ctx.ob("R12.4", "SolverResult.dt is the variable dt", not bad_ret, detail=bad_ret[:4], where=fu.fq,
            construct="results[0]", message=f"the first result is not dt: {bad_ret[:1]}", consequence="the runner advances the clock by another step")
     fr = repo.func(RUNNER, "Runner._run_stage")
-    # new_dt, *self.values = function_result ; self.dt = new_dt ; self.time += self.dt   (local names free)
-    unpack = [n for n in own_nodes(fr.node) if isinstance(n, ast.Assign) and isinstance(n.targets[0], ast.Tuple) and len(n.targets[0].elts) == 2
-              and isinstance(n.targets[0].elts[0], ast.Name) and isinstance(n.targets[0].elts[1], ast.Starred)
-              and norm(n.targets[0].elts[1].value) == "self.values"]
-    ok = False
-    if len(unpack) == 1:
-        v = unpack[0].targets[0].elts[0].id
-        sets_dt = [n for n in own_nodes(fr.node) if isinstance(n, ast.Assign) and norm(n.targets[0]) == "self.dt" and norm(n.value) == v]
-        adv = [n for n in own_nodes(fr.node) if isinstance(n, ast.AugAssign) and norm(n.target) == "self.time" and isinstance(n.op, ast.Add)
-               and norm(n.value) in ("self.dt", v)]
-        ok = len(sets_dt) == 1 and len(adv) == 1
-    ctx.ob("R12.4", "the runner adds the returned dt to the clock", ok, where=fr.fq, construct="clock advance",
-           loc=loc(fr, fr.node), message="the runner no longer advances self.time by the dt returned by the update",
+    from ..run_rules import loop_verdicts
+    Vl = loop_verdicts(repo)
+    ctx.ob("R12.4", "the runner adds the returned dt to the clock", not Vl["clock"], detail=Vl["clock"][:3], where=fr.fq, construct="clock advance",
+           loc=loc(fr, fr.node), message=f"the runner no longer advances self.time by the dt returned by the update: {Vl['clock'][:1]}",
            consequence="frame times are not the sum of the steps used")
 
 
